@@ -146,7 +146,9 @@ pub fn run_c16(cx: &mut Cx) {
         let Some(item) = cx.item() else { continue };
         let key2 = pool_key(cx.run_index % POOL_SIZE);
         let (g1, h1, n1, a1, b1) = (key2.cpk.g_bases[0].clone(), key2.cpk.h.clone(), key2.cpk.N.clone(), a.clone(), b.clone());
-        cx.step(prover, "prove-out-of-range", StepOpts::default(), move || {
+        // the prover's retry loops report to the simulator (ticks): a prover that neither panics nor
+        // returns within 400 re-draws has not produced a proof either
+        cx.step(prover, "prove-out-of-range", StepOpts { tick_budget: 400, ..Default::default() }, move || {
             let r = zkryptium::utils::random::random_bits(LN);
             let ginv = Integer::from(g1.invert_ref(&n1).unwrap());
             let gx = if xo >= 0 { pow(&g1, &xo, &n1) } else { pow(&ginv, &Integer::from(-&xo), &n1) };
@@ -162,7 +164,7 @@ pub fn run_c16(cx: &mut Cx) {
                 Ok(true) => cx.violation("C16", format!("prove/out-of-range-value-accepted/{oname}"), "the honest prover obtained an accepted proof for a value outside [a, b]".into()),
                 Ok(false) => cx.count("verdict.MustReject.reject"),
                 Err(Crash::Panic(_)) => cx.count("verdict.MustReject.refused-by-panic"),
-                Err(c) => cx.log(format!("out-of-range prove: {c:?}")),
+                Err(Crash::Budget(..)) => cx.count("verdict.MustReject.prover-kept-retrying"),
             }
             cx.cur_item = None;
         });
